@@ -240,3 +240,47 @@ def monitorFor2 (prop : String) : Hist → Option String :=
   | p => monitorFor p
 
 end Httpcache.Driver
+
+namespace Httpcache.Driver
+open Httpcache
+
+/-! ### C20 -/
+def effTimeout (h : Hist) : Int := if h.swrNs > 0 then h.swrNs else Generated.defaultSWRTimeoutNs
+
+def monC20 (h : Hist) : Option String :=
+  first? [
+    if h.leak > 0 then some s!"{h.leak} origin call(s) still pending long after every timeout" else none,
+    h.reqs.findSome? fun ri => do
+      let x ← h.ex ri
+      let isSwr := x.res.kind == "resp" && statusValues x.res.hdr == [str% "STALE"] && x.fgCalls.isEmpty
+      if !isSwr then
+        (if !x.bgCalls.isEmpty then some s!"exchange {ri.n}: background origin call without a stale-while-revalidate response ({x.res.kind} {x.res.status})" else none)
+      else
+        if x.res.t1 ≠ x.res.t0 then some s!"exchange {ri.n}: the stale-while-revalidate response took {x.res.t1 - x.res.t0} ns of virtual time" else
+        match x.bgCalls with
+        | [c] =>
+          let e ← x.entry
+          if !condHeadersOk ri.req.header e.resp.header c.hdr then
+            some s!"exchange {ri.n}: background revalidation request [{showHdrs c.hdr}] is not the client's request plus the stored validators"
+          else if !c.deadline then some s!"exchange {ri.n}: background revalidation request carries no deadline"
+          else if c.t0 ≠ x.res.t0 then some s!"exchange {ri.n}: background revalidation started {c.t0 - x.res.t0} ns after the response was returned"
+          else
+            let T := effTimeout h
+            let rp ← h.reply ri.n c.k
+            let callerCancelled := ri.cancel == "before" || ri.cancel == "after"
+            if callerCancelled then none else
+            if rp.kind == "hang" || rp.delay > T then
+              if c.outcome == "cancel" && c.t1 - c.t0 = T then none
+              else some s!"exchange {ri.n}: slow background request ended with {c.outcome} after {c.t1 - c.t0} ns, timeout is {T} ns"
+            else if rp.delay < T then
+              if c.outcome != "cancel" && c.t1 - c.t0 = rp.delay then none
+              else some s!"exchange {ri.n}: background request (latency {rp.delay} ns < timeout {T} ns) ended with {c.outcome} after {c.t1 - c.t0} ns"
+            else none
+        | l => some s!"exchange {ri.n}: {l.length} background revalidation requests for one stale-while-revalidate response" ]
+
+def monitorFor3 (prop : String) : Hist → Option String :=
+  match prop with
+  | "C20" => monC20
+  | p => monitorFor2 p
+
+end Httpcache.Driver
